@@ -249,19 +249,564 @@ Proof.
   split; [|reflexivity]. constructor; [|constructor].
   refine (best_location_evaluated af _ (okpt d) _ o p _ Eb El). eapply OPP.de_optimize_ok; [exact C1|exact C2|exact Ed].
 Qed.
-Theorem gp_stage_feasible D fixed c afl best n m xs : stage_ctx D fixed c ->
-  match m with GCl _ _ os => Forall vorc_ok os | GQei _ _ _ us _ => unit_stream us end ->
+Theorem search_loop_feasible d c afl Pde maxiter pretest : stage_ctx d [] c ->
+  forall os lies xs, Forall (fun o => unit_stream (so_us o)) os -> search_loop d c afl Pde maxiter pretest lies os = SOk xs ->
+  Forall (RP.feasible (oh_dom d)) xs /\ length xs = length os.
+Proof.
+  intros (Hwf & H2 & Hi & Hf). induction os as [|o os IH]; intros lies xs Hos H; cbn [search_loop] in H.
+  - injection H as <-. split; [constructor|reflexivity].
+  - inversion Hos as [|? ? Ho Hos']; subst. destruct pretest as [|x0 pre]; [discriminate|].
+    destruct (OP.de_optimize _ _ _ _ _ _ _) as [o_de|e] eqn:Ed; [|discriminate]. cbn [lift sbind] in H.
+    destruct (OP.best_location o_de) as [p|] eqn:Eb; [|discriminate].
+    destruct (Nat.eqb (length p) (oh_dim d)) eqn:El; [|discriminate]. apply Nat.eqb_eq in El.
+    destruct (search_loop d c afl Pde maxiter (x0 :: pre) (lies ++ [p]) os) as [rest|e] eqn:Er; [|discriminate]. cbn [sbind] in H.
+    injection H as <-. destruct (IH _ _ Hos' Er) as [A B]. split; [|simpl; lia]. constructor; [|exact A].
+    destruct (oh_restrict_contract d [] c (so_us o) Hwf H2 Hi Ho Hf) as [C1 C2].
+    refine (best_location_evaluated (afl lies) _ (okpt d) _ o_de p _ Eb El). eapply OPP.de_optimize_ok; [exact C1|exact C2|exact Ed].
+Qed.
+Definition mode_ok (m : gp_mode) : Prop :=
+  match m with
+  | GCl _ _ os => Forall vorc_ok os
+  | GQei _ _ _ us _ => unit_stream us
+  | GSearch _ _ _ os => Forall (fun o => unit_stream (so_us o)) os
+  end.
+Theorem gp_stage_feasible D fixed c afl best n m xs : stage_ctx D fixed c -> mode_ok m ->
   gp_stage D fixed c afl best n m = SOk xs -> Forall (RP.feasible (oh_dom D)) xs /\ length xs = n.
 Proof.
-  intros Hctx Hm H. destruct m as [P pretest os|Pde maxiter gen us ds]; cbn [gp_stage] in H.
+  intros Hctx Hm H. destruct m as [P pretest os|Pde maxiter gen us ds|Pde maxiter pretest os]; cbn [gp_stage] in H.
   - eapply cl_stage_feasible; eassumption.
   - destruct (Nat.eqb n 1) eqn:E; [|discriminate]. apply Nat.eqb_eq in E. subst n. eapply qei_stage_feasible; eassumption.
+  - destruct fixed; [|discriminate]. destruct (Nat.eqb (length os) n) eqn:E; [|discriminate]. apply Nat.eqb_eq in E.
+    destruct (search_loop_feasible D c afl Pde maxiter pretest Hctx os [] xs Hm H) as [A B]. split; [exact A|lia].
 Qed.
 (* the statement the tails ask for *)
-Corollary gp_stage_relaxed_ok D fixed c afl best n m xs : stage_ctx D fixed c ->
-  match m with GCl _ _ os => Forall vorc_ok os | GQei _ _ _ us _ => unit_stream us end ->
+Corollary gp_stage_relaxed_ok D fixed c afl best n m xs : stage_ctx D fixed c -> mode_ok m ->
   gp_stage D fixed c afl best n m = SOk xs -> Forall (relaxed_ok D) xs /\ length xs = n.
 Proof.
   intros Hctx Hm H. destruct (gp_stage_feasible D fixed c afl best n m xs Hctx Hm H) as [A B]. split; [|exact B].
   eapply Forall_impl; [|exact A]. intros p. apply feasible_relaxed_ok.
+Qed.
+
+(* ------------------------------------------------------------------ F. the one-hot sampler (C08's samplers on D) *)
+Definition unit_row (n : nat) (u : row) : Prop := length u = n /\ Forall RP.unit_interval u.
+Definition HR_RUNUP_DISCARD (dim : nat) : nat := (10 * (dim + 1) + 25 * (dim + 1))%nat.
+(* range contracts of the primitive draws of generate_quasi_random_points_in_domain(n) *)
+Definition samp_ok (d : domain) (n : nat) (o : samp_orc) : Prop :=
+  let dim := oh_dim d in
+  match o with
+  | SLhs U perms => SP.lhs_draws_ok n dim U /\ (forall j, (j < dim)%nat -> Permutation (seq 0 n) (nth j perms []))
+  | SUnit rows => Forall (unit_row dim) rows
+  | SRej blocks draws =>
+      Forall (Forall (unit_row dim)) blocks /\ SP.hr_draws_ok dim draws /\
+      (* hit-and-run padding, when it runs, is given one draw triple per iteration *)
+      (forall pts, SA.rejection_sampling (R.halfspaces (oh_dom d)) n REJECTION_SAMPLING_BLOCK_SIZE DEFAULT_REJECTION_SAMPLING_TRIALS
+                     (map (SA.cube_sampler (one_hot_box d)) blocks) = (pts, false) ->
+                   (HR_RUNUP_DISCARD dim + (n - length pts) <= length draws)%nat)
+  | SHit draws urows =>
+      SP.hr_draws_ok dim draws /\ (HR_RUNUP_DISCARD dim + n <= length draws)%nat /\
+      length urows = n /\ Forall (Forall RP.unit_interval) urows
+  end.
+
+Lemma hr_loop_shape hs runup n : forall draws it x mean pts out,
+  SP.hr_draws_ok n draws -> length x = n -> length mean = n -> Forall (fun p => length p = n) pts ->
+  SA.hr_loop hs runup it x mean pts draws = Some out ->
+  Forall (fun p => length p = n) out /\ length out = (length pts + length draws)%nat.
+Proof.
+  induction draws as [|[[z u] r] draws IH]; intros it x mean pts out Hd Hx Hm Hp; simpl.
+  - intros E. injection E as <-. split; [exact Hp|lia].
+  - inversion Hd as [|? ? [Hz Hu] Hd']; subst. simpl in Hz, Hu.
+    set (dd := if Nat.ltb it runup then z else let w := R.map2 Qminus (nth r pts []) mean in if SA.is_zero_vec w then z else w).
+    assert (Hdl : length dd = length x).
+    { unfold dd. destruct (Nat.ltb it runup); [lia|]. cbv zeta.
+      destruct (SA.is_zero_vec (R.map2 Qminus (nth r pts []) mean)) eqn:Ez; [lia|].
+      destruct (Nat.lt_ge_cases r (length pts)) as [L|L].
+      - rewrite map2_len. rewrite Forall_forall in Hp. rewrite (Hp (nth r pts [])) by (apply nth_In; exact L). lia.
+      - rewrite nth_overflow in Ez by exact L. simpl in Ez. discriminate. }
+    destruct (SA.hr_step hs x dd u) as [x'|] eqn:Es; [|discriminate].
+    assert (Hx' : length x' = length x).
+    { unfold SA.hr_step in Es. destruct (SA.max_list _); [|discriminate]. destruct (SA.min_list _); [|discriminate].
+      injection Es as <-. rewrite map2_len. lia. }
+    intros E. apply IH in E; try assumption; try lia.
+    + destruct E as [A B]. split; [exact A|]. rewrite B, app_length. simpl. lia.
+    + rewrite map2_len. lia.
+    + apply Forall_app. split; [exact Hp|]. constructor; [lia|constructor].
+Qed.
+Lemma hitandrun_shape hs dim num x0 draws out : SP.hr_draws_ok dim draws -> length x0 = dim ->
+  (HR_RUNUP_DISCARD dim + num <= length draws)%nat -> SA.hitandrun hs dim num x0 draws = Some out ->
+  Forall (fun p => length p = dim) out /\ length out = num.
+Proof.
+  intros Hd Hx Hn. unfold SA.hitandrun, HR_RUNUP_DISCARD in *.
+  set (tot := (10 * (dim + 1) + 25 * (dim + 1) + num)%nat) in *.
+  destruct (SA.hr_loop hs (10 * (dim + 1)) 0 x0 (repeat 0 dim) [] (firstn tot draws)) as [pts|] eqn:E; [|discriminate].
+  intros E'. injection E' as <-.
+  assert (Hd' : SP.hr_draws_ok dim (firstn tot draws)).
+  { unfold SP.hr_draws_ok in *. apply Forall_forall. intros q Hq. rewrite Forall_forall in Hd. apply Hd. apply (SP.firstn_In _ draws _ Hq). }
+  destruct (hr_loop_shape hs _ dim _ _ _ _ _ _ Hd' Hx (repeat_length 0 dim) (Forall_nil _) E) as [A B].
+  simpl in B. rewrite firstn_length_le in B by (unfold tot; lia). split.
+  - apply Forall_forall. intros p Hp. rewrite Forall_forall in A. apply A.
+    rewrite <- (firstn_skipn (25 * (dim + 1) + 10 * (dim + 1)) pts). apply in_or_app. right. exact Hp.
+  - rewrite skipn_length, B. unfold tot. lia.
+Qed.
+
+Lemma sat_halfspaces_feasible d p : length p = oh_dim d -> RP.sat_all (R.halfspaces (oh_dom d)) p -> RP.feasible (oh_dom d) p.
+Proof. intros Hl Hs. apply RP.halfspaces_sat_iff; assumption. Qed.
+
+(* overwriting the columns no constraint mentions by uniform values of their own ranges keeps the region *)
+Lemma combine_transform_In (f : nat -> Q * Q) : forall idx u j v,
+  In (j, v) (combine idx (SA.cube_transform (map f idx) u)) -> Forall RP.unit_interval u ->
+  In j idx /\ exists ui, RP.unit_interval ui /\ v = fst (f j) + (snd (f j) - fst (f j)) * ui.
+Proof.
+  induction idx as [|i idx IH]; intros [|ui u] j v Hin Hu; simpl in Hin; try contradiction.
+  inversion Hu; subst. destruct Hin as [E|Hin].
+  - injection E as <- <-. split; [left; reflexivity|]. exists ui. split; [assumption|reflexivity].
+  - destruct (IH u j v Hin H2) as [A B]. split; [right; exact A|exact B].
+Qed.
+Lemma overwrite_uncon_feasible d p u : wf_domain d = true -> Forall RP.unit_interval u ->
+  RP.feasible (oh_dom d) p -> RP.feasible (oh_dom d) (overwrite_uncon d p u).
+Proof.
+  intros Hwf Hu Hp. unfold overwrite_uncon. apply RP.fixed_point_feasible; [|exact Hp].
+  intros [j v] Hin. simpl.
+  destruct (combine_transform_In (fun j => nth j (one_hot_box d) (0, 0)) _ _ _ _ Hin Hu) as [Hj (ui & [U0 U1] & ->)].
+  unfold uncon_idx in Hj. apply filter_In in Hj as [Hj Hz]. apply in_seq in Hj.
+  split; [unfold oh_dom; simpl; unfold oh_dim in Hj; lia|]. split.
+  - unfold oh_dom. simpl. set (b := nth j (one_hot_box d) (0, 0)).
+    assert (B : fst b <= snd b). { apply (oh_box_ordered d Hwf). apply nth_In. unfold oh_dim in Hj. lia. }
+    split; nra.
+  - intros c0 Hc. rewrite forallb_forall in Hz. apply Qeq_bool_iff. apply Hz. exact Hc.
+Qed.
+Lemma map2_In {A B C} (f : A -> B -> C) : forall a b x, In x (R.map2 f a b) -> exists p q, In p a /\ In q b /\ x = f p q.
+Proof.
+  induction a as [|p a IH]; intros [|q b] x H; simpl in H; try contradiction. destruct H as [<-|H].
+  - exists p, q. simpl. auto.
+  - destruct (IH b x H) as (p' & q' & A1 & A2 & E). exists p', q'. simpl. auto.
+Qed.
+
+Theorem oh_sample_ok d c n o rows : wf_domain d = true -> (is_constrained d = true -> RP.interior (oh_dom d) c) ->
+  samp_ok d n o -> oh_sample d c n o = Some rows -> Forall (RP.feasible (oh_dom d)) rows /\ length rows = n.
+Proof.
+  intros Hwf Hi Hs H. unfold oh_sample in H. rewrite is_constrained_R in H. pose proof (oh_box_ordered d Hwf) as Hord.
+  destruct (is_constrained d) eqn:Ec.
+  - destruct (Hi eq_refl) as [Hcl Hcs]. change (length (R.bounds (oh_dom d))) with (oh_dim d) in Hcl.
+    pose proof (RP.strict_sat _ _ Hcs) as Hcsat.
+    destruct o as [U perms|urows|blocks draws|draws urows]; try discriminate.
+    + (* rejection sampling, hit-and-run padding *)
+      destruct Hs as (Hbl & Hdr & Hlen). fold (oh_dim d) in H.
+      set (hs := R.halfspaces (oh_dom d)) in *. set (cand := map (SA.cube_sampler (one_hot_box d)) blocks) in *.
+      destruct (SA.rejection_with_padding hs (oh_dim d) n _ _ cand c draws) as [[out ok]|] eqn:E; [|discriminate].
+      simpl in H. injection H as <-. unfold SA.rejection_with_padding in E.
+      assert (Hcand : forall blk p, In blk cand -> In p blk -> length p = oh_dim d).
+      { intros blk p Hb Hp. unfold cand in Hb. apply in_map_iff in Hb as (ub & <- & Hub).
+        rewrite Forall_forall in Hbl. specialize (Hbl ub Hub).
+        pose proof (SP.cube_sampler_in_box (one_hot_box d) ub Hord Hbl) as F. rewrite Forall_forall in F.
+        apply (RP.in_box_length _ _ (F p Hp)). }
+      pose proof (SP.rejection_outputs_feasible hs n REJECTION_SAMPLING_BLOCK_SIZE DEFAULT_REJECTION_SAMPLING_TRIALS cand
+                    (fun p => length p = oh_dim d) Hcand) as Rj. cbv zeta in Rj.
+      specialize (Hlen (fst (SA.rejection_sampling hs n REJECTION_SAMPLING_BLOCK_SIZE DEFAULT_REJECTION_SAMPLING_TRIALS cand))).
+      destruct (SA.rejection_sampling hs n REJECTION_SAMPLING_BLOCK_SIZE DEFAULT_REJECTION_SAMPLING_TRIALS cand) as [pts ok'] eqn:Er.
+      cbn [fst snd] in *. destruct Rj as [Rf Rn].
+      assert (Fp : Forall (RP.feasible (oh_dom d)) pts).
+      { eapply Forall_impl; [|exact Rf]. intros p [A B]. apply sat_halfspaces_feasible; assumption. }
+      assert (Hle : ok' = false -> (length pts <= n)%nat).
+      { intros ->. unfold SA.rejection_sampling in Er. destruct n as [|m]; [injection Er as <-; simpl; lia|].
+        pose proof (SP.rejection_loop_count hs REJECTION_SAMPLING_BLOCK_SIZE cand [] (Z.of_nat (S m)) DEFAULT_REJECTION_SAMPLING_TRIALS) as Cn.
+        destruct (SA.rejection_loop hs REJECTION_SAMPLING_BLOCK_SIZE cand [] (Z.of_nat (S m)) DEFAULT_REJECTION_SAMPLING_TRIALS) as [pp lft].
+        cbn [fst snd length] in Cn. destruct (Z.ltb 0 lft) eqn:El; [|discriminate]. injection Er as <-. apply Z.ltb_lt in El. lia. }
+      destruct ok'; cbn [negb andb] in E.
+      * injection E as <- _. split; [exact Fp|apply Rn; reflexivity].
+      * destruct (Nat.ltb 0 n) eqn:En.
+        -- destruct (SA.hitandrun hs (oh_dim d) (n - length pts) c draws) as [more|] eqn:Eh; [|discriminate]. injection E as <- _.
+           destruct (hitandrun_shape hs (oh_dim d) _ c draws more Hdr Hcl (Hlen eq_refl) Eh) as [Sl Sn].
+           pose proof (SP.hitandrun_inside hs (oh_dim d) _ c draws more Hdr Hcl Hcsat Eh) as Sin.
+           split; [|rewrite app_length, Sn; specialize (Hle eq_refl); lia].
+           apply Forall_app. split; [exact Fp|]. apply Forall_forall. intros p Hp. rewrite Forall_forall in Sl, Sin.
+           apply sat_halfspaces_feasible; [apply Sl, Hp|apply Sin, Hp].
+        -- injection E as <- _. apply Nat.ltb_ge in En. split; [exact Fp|specialize (Hle eq_refl); lia].
+    + (* hit-and-run with the unconstrained columns re-drawn *)
+      destruct Hs as (Hdr & Hlen & Hul & Huu). fold (oh_dim d) in H.
+      destruct (SA.hitandrun (R.halfspaces (oh_dom d)) (oh_dim d) n c draws) as [pts|] eqn:Eh; [|discriminate].
+      simpl in H. injection H as <-.
+      destruct (hitandrun_shape _ (oh_dim d) _ c draws pts Hdr Hcl Hlen Eh) as [Sl Sn].
+      pose proof (SP.hitandrun_inside _ (oh_dim d) _ c draws pts Hdr Hcl Hcsat Eh) as Sin.
+      split; [|rewrite map2_len; lia].
+      apply Forall_forall. intros x Hx. apply map2_In in Hx as (p & u & Hp & Hu & ->).
+      rewrite Forall_forall in Sl, Sin, Huu. apply overwrite_uncon_feasible; [exact Hwf|apply Huu, Hu|].
+      apply sat_halfspaces_feasible; [apply Sl, Hp|apply Sin, Hp].
+  - destruct o as [U perms|urows|blocks draws|draws urows]; try discriminate.
+    + injection H as <-. destruct Hs as [HU HP].
+      destruct (SP.lhs_points_in_box (one_hot_box d) n U perms Hord HU HP) as [L F]. split; [|exact L].
+      eapply Forall_impl; [|exact F]. intros p Hp. apply unconstrained_feasible; assumption.
+    + destruct (Nat.eqb (length urows) n) eqn:El; [|discriminate]. apply Nat.eqb_eq in El. injection H as <-.
+      split; [|unfold SA.cube_sampler; rewrite map_length; exact El].
+      pose proof (SP.cube_sampler_in_box (one_hot_box d) urows Hord Hs) as F.
+      eapply Forall_impl; [|exact F]. intros p Hp. apply unconstrained_feasible; assumption.
+Qed.
+
+(* ------------------------------------------------------------------ G. end to end: no relaxed_ok hypothesis left.
+   What remains are range contracts of the primitive random draws (numpy.random.random in [0,1], shuffles are
+   permutations, hit-and-run draw triples, scipy.stats priors inside their supports, numpy.random.choice returns members)
+   and, on a constrained domain, a strictly interior point c of the search domain (what find_interior_point returns when
+   it reports feasibility: C08_cheby_flag_gives_interior). *)
+Definition quasi_prim (d : domain) (c : row) (n : Z) (so : samp_orc) (cols : list (list Q)) (dec : dorc) : Prop :=
+  if is_constrained d
+  then samp_ok d (Z.to_nat n) so /\ (Z.to_nat n <= length (o_cats dec))%nat
+  else DP.cols_ok (Z.to_nat n) (DS.quasi_requests (ddom d)) cols.
+Lemma mk_qorc_ok d c n so cols dec q : wf_domain d = true -> (is_constrained d = true -> RP.interior (oh_dom d) c) ->
+  quasi_prim d c n so cols dec -> mk_qorc d c n so cols dec = Some q -> qorc_ok d n q /\ q_cols q = cols.
+Proof.
+  intros Hwf Hi Hq H. unfold mk_qorc, quasi_prim, qorc_ok in *. destruct (is_constrained d) eqn:Ec.
+  - destruct (oh_sample d c (Z.to_nat n) so) as [rows|] eqn:Es; [|discriminate]. simpl in H. injection H as <-. cbn [q_rows q_dec q_cols].
+    destruct Hq as [Hs Hl]. destruct (oh_sample_ok d c _ so rows Hwf (fun _ => Hi eq_refl) Hs Es) as [A B]. split; [|reflexivity].
+    split; [|split; [exact B|rewrite B; exact Hl]]. eapply Forall_impl; [|exact A]. intros p. apply feasible_relaxed_ok.
+  - injection H as <-. split; [exact Hq|reflexivity].
+Qed.
+
+(* ---- the random endpoint (also: the initialisation / random branches of the Parzen endpoints) *)
+Definition random_prim (d : domain) (ps : list DS.prior) (n : Z) (pcols : list (list Q)) (c : row) (so : samp_orc)
+  (cols : list (list Q)) (dec : dorc) : Prop :=
+  match DS.view_path ps (is_constrained d) with
+  | DS.UsePriors => length ps = length (comps d) /\ Forall prior_valid ps /\ DP.cols_ok (Z.to_nat n) (prior_reqs d ps) pcols
+  | DS.UseQuasi => quasi_prim d c n so cols dec
+  end.
+Theorem random_endpoint_admissible d opts ps n pcols c so cols dec draws r : wf_domain d = true -> (0 <= n)%Z ->
+  (is_constrained d = true -> RP.interior (oh_dom d) c) -> random_prim d ps n pcols c so cols dec ->
+  (opts <> [] -> draws_ok opts (length (r_points r)) draws) ->
+  random_endpoint d opts ps n pcols c so cols dec draws = Some r -> resp_ok d opts (Z.to_nat n) r.
+Proof.
+  intros Hwf Hn Hi Hp Hd H. unfold random_endpoint, obind in H.
+  destruct (mk_qorc d c n so cols dec) as [q|] eqn:Eq; [|discriminate].
+  apply (tail_random_admissible d opts ps n pcols q draws r Hwf Hn); [| |exact H].
+  - unfold random_contract, random_prim in *. destruct (DS.view_path ps (is_constrained d)); [exact Hp|].
+    apply (mk_qorc_ok d c n so cols dec q Hwf Hi Hp Eq).
+  - intros pts Hpts Hne. unfold random_tail, obind in H. rewrite Hpts in H. injection H as <-.
+    unfold with_costs in Hd. cbn [r_points] in Hd. apply Hd. exact Hne.
+Qed.
+
+(* ---- the GP endpoint *)
+Definition fill_prim (D : domain) (c : row) (k : Z) (hist : list point) (f : gp_fill) : Prop :=
+  if negb (is_discrete D) || is_constrained D then quasi_prim D c k (f_so f) (f_cols f) (f_dec f)
+  else DP.cols_ok (Z.to_nat k) (DS.quasi_requests (ddom D)) (f_cols f) /\
+       DP.oracle_ok (DS.distinct_plan (ddom D) k hist DS.default_dup_prob) (f_choice f).
+Lemma fill_prim_contract D c k hist f q : wf_domain D = true -> (is_constrained D = true -> RP.interior (oh_dom D) c) ->
+  fill_prim D c k hist f -> mk_qorc D c k (f_so f) (f_cols f) (f_dec f) = Some q -> fill_contract D k hist (f_choice f) q.
+Proof.
+  intros Hwf Hi Hf Hq. unfold fill_prim, fill_contract in *. destruct (negb (is_discrete D) || is_constrained D) eqn:E.
+  - apply (mk_qorc_ok D c k _ _ _ q Hwf Hi Hf Hq).
+  - apply orb_false_iff in E as [_ Ec]. unfold mk_qorc in Hq. rewrite Ec in Hq. injection Hq as <-. exact Hf.
+Qed.
+Lemma fixed_valid_nil D : RP.fixed_valid D [].
+Proof. intros iv []. Qed.
+Lemma view_assert_some d n r x : view_assert d n r = Some x -> r = Some x.
+Proof. unfold view_assert, obind. destruct r as [y|]; [|discriminate]. destruct (_ || _); [intros E; exact E|discriminate]. Qed.
+
+Theorem gp_endpoint_admissible d c afl best n m hist dec f r :
+  wf_domain d = true -> cons_two d -> (is_constrained d = true -> RP.interior (oh_dom d) c) -> mode_ok m ->
+  (n <= length (o_cats dec))%nat ->
+  (forall xs pts, gp_stage d [] c afl best n m = SOk xs -> convert_from_one_hot d (is_qei m) (afl []) dec xs = Some pts ->
+     fill_prim d c (fill_k d pts hist) hist f) ->
+  gp_endpoint d c afl best n m hist dec f = Some r -> resp_ok d [] n r.
+Proof.
+  intros Hwf H2 Hi Hm Hl Hf H. unfold gp_endpoint in H.
+  destruct (gp_stage d [] c afl best n m) as [xs|e] eqn:Es; [|discriminate].
+  destruct (gp_stage_relaxed_ok d [] c afl best n m xs (conj Hwf (conj H2 (conj Hi (fixed_valid_nil _)))) Hm Es) as [Hxs Hlen].
+  unfold obind in H. destruct (convert_from_one_hot d (is_qei m) (afl []) dec xs) as [pts|] eqn:Ec; [|discriminate].
+  destruct (mk_qorc d c (fill_k d pts hist) (f_so f) (f_cols f) (f_dec f)) as [q|] eqn:Eq; [|discriminate].
+  apply view_assert_some in H. rewrite <- Hlen.
+  eapply (tail_gp_admissible d (is_qei m) (afl []) xs hist []); [exact Hwf|exact Hxs| | |exact H]; cbn [g_dec g_choice g_q]; [lia|].
+  intros pts' u2 Ec' Ek. rewrite Ec in Ec'. injection Ec' as <-.
+  pose proof (fill_prim_contract d c _ hist f q Hwf Hi (Hf xs pts eq_refl Ec) Eq) as Fc. unfold fill_k in Fc. rewrite Ek in Fc. exact Fc.
+Qed.
+
+(* ---- the GP endpoint with task options: the search domain carries the task column, fixed at the a-priori task *)
+Lemma oh_weights_len : forall cs w, length w = length cs -> length (oh_weights cs w) = length (flat_map box_of cs).
+Proof.
+  induction cs as [|c cs IH]; intros [|a w] Hl; simpl in Hl; try discriminate; [reflexivity|].
+  destruct c as [lo hi|lo hi|es|es]; cbn [oh_weights flat_map box_of]; rewrite ?app_length, ?repeat_length; simpl; rewrite IH by lia; reflexivity.
+Qed.
+Lemma oh_weights_app a b : forall cs w, length w = length cs -> oh_weights (cs ++ [Double a b]) (w ++ [0]) = oh_weights cs w ++ [0].
+Proof.
+  induction cs as [|c cs IH]; intros [|x w] Hl; simpl in Hl; try discriminate; [reflexivity|].
+  destruct c as [lo hi|lo hi|es|es]; cbn [oh_weights app]; rewrite IH by lia; try reflexivity. rewrite app_assoc. reflexivity.
+Qed.
+Lemma wf_weights_len d k : wf_domain d = true -> In k (cons d) -> length (weights k) = length (comps d).
+Proof.
+  intros Hwf Hin. unfold wf_domain in Hwf. apply andb_true_iff in Hwf as [_ Hw]. rewrite forallb_forall in Hw. specialize (Hw k Hin).
+  unfold wf_constraint in Hw. apply andb_true_iff in Hw as [Hw _]. apply Nat.eqb_eq in Hw. exact Hw.
+Qed.
+Lemma box_with_task d opts : one_hot_box (with_task d opts) = one_hot_box d ++ [(list_min opts, list_max opts)].
+Proof. unfold one_hot_box. cbn [with_task comps]. rewrite flat_map_app. reflexivity. Qed.
+Lemma nnz_app0 l : R.nnz (l ++ [0]) = R.nnz l.
+Proof. unfold R.nnz. rewrite filter_app, app_length. simpl. lia. Qed.
+Lemma cons_two_with_task d opts : wf_domain d = true -> cons_two d -> cons_two (with_task d opts).
+Proof.
+  intros Hwf H2 k' Hk'. cbn [with_task cons comps] in *. apply in_map_iff in Hk' as (k & <- & Hk). cbn [weights].
+  rewrite oh_weights_app by (apply wf_weights_len; assumption). rewrite nnz_app0. apply H2, Hk.
+Qed.
+Lemma is_constrained_with_task d opts : is_constrained (with_task d opts) = is_constrained d.
+Proof. unfold is_constrained. cbn [with_task cons]. rewrite map_length. reflexivity. Qed.
+Lemma task_fixed_valid d opts t : wf_domain d = true -> In t opts -> RP.fixed_valid (oh_dom (with_task d opts)) (task_fixed d t).
+Proof.
+  intros Hwf Ht iv [<-|[]]. cbn [fst snd]. unfold oh_dom. cbn [R.bounds R.cstrs]. rewrite box_with_task. split; [|split].
+  - rewrite app_length. unfold oh_dim. simpl. lia.
+  - unfold oh_dim. rewrite app_nth2 by lia. rewrite Nat.sub_diag. simpl. apply grid_range. exact Ht.
+  - intros c0 Hc. unfold oh_cons in Hc. cbn [with_task cons comps] in Hc. rewrite map_map in Hc.
+    apply in_map_iff in Hc as (k & <- & Hk). cbn [weights fst].
+    rewrite oh_weights_app by (apply wf_weights_len; assumption).
+    assert (L : length (oh_weights (comps d) (weights k)) = oh_dim d) by (apply oh_weights_len, wf_weights_len; assumption).
+    rewrite app_nth2 by lia. rewrite L, Nat.sub_diag. reflexivity.
+Qed.
+
+Theorem gp_endpoint_mt_admissible d opts t ct afl best n P pretest os hist_oh dec hdec f r :
+  wf_domain d = true -> opts <> [] -> list_min opts < list_max opts -> In t opts -> cons_two d ->
+  (is_constrained d = true -> RP.interior (oh_dom (with_task d opts)) ct) -> Forall vorc_ok os ->
+  (n <= length (o_cats dec))%nat ->
+  (forall xs pts aug, cl_stage (with_task d opts) (task_fixed d t) ct afl best P pretest n os = SOk xs ->
+     convert_from_one_hot (with_task d opts) false (afl []) dec xs = Some pts ->
+     decode_b (with_task d opts) hdec hist_oh = Some aug ->
+     fill_prim (with_task d opts) ct (fill_k (with_task d opts) pts aug) aug f) ->
+  gp_endpoint_mt d opts t ct afl best n P pretest os hist_oh dec hdec f = Some r -> resp_ok d opts n r.
+Proof.
+  intros Hwf Hne Hlt Ht H2 Hi Hos Hl Hf H. unfold gp_endpoint_mt in H. set (dt := with_task d opts) in *.
+  pose proof (with_task_wf d opts Hwf Hlt) as Hwt.
+  assert (Hit : is_constrained dt = true -> RP.interior (oh_dom dt) ct) by (unfold dt; rewrite is_constrained_with_task; exact Hi).
+  destruct (cl_stage dt (task_fixed d t) ct afl best P pretest n os) as [xs|e] eqn:Es; [|discriminate].
+  assert (Hctx : stage_ctx dt (task_fixed d t) ct).
+  { split; [exact Hwt|]. split; [apply cons_two_with_task; assumption|]. split; [exact Hit|apply task_fixed_valid; assumption]. }
+  destruct (cl_stage_feasible dt _ ct afl best P pretest n os xs Hctx Hos Es) as [Hfe Hlen].
+  assert (Hxs : Forall (relaxed_ok dt) xs) by (eapply Forall_impl; [|exact Hfe]; intros p; apply feasible_relaxed_ok).
+  unfold obind in H. destruct (convert_from_one_hot dt false (afl []) dec xs) as [pts|] eqn:Ec; [|discriminate].
+  destruct (decode_b dt hdec hist_oh) as [aug|] eqn:Ea; [|discriminate].
+  destruct (mk_qorc dt ct (fill_k dt pts aug) (f_so f) (f_cols f) (f_dec f)) as [q|] eqn:Eq; [|discriminate].
+  apply view_assert_some in H. rewrite <- Hlen.
+  eapply (tail_gp_multitask_admissible d opts (afl []) xs [] hist_oh); [exact Hwf|exact Hne|exact Hlt|exact Hxs| | |exact H];
+    cbn [g_dec g_hdec g_choice g_q]; [lia|].
+  intros pts' aug' u2 Ec' Ea' Ek. fold dt in Ec', Ea', Ek |- *. rewrite Ec in Ec'. injection Ec' as <-. rewrite Ea in Ea'. injection Ea' as <-.
+  pose proof (fill_prim_contract dt ct _ aug f q Hwt Hit (Hf xs pts aug eq_refl Ec eq_refl) Eq) as Fc. unfold fill_k in Fc. rewrite Ek in Fc. exact Fc.
+Qed.
+
+(* ---- the Parzen-estimator endpoint *)
+Lemma restrict_points_feasible d c vp on us ps : wf_domain d = true -> cons_two d ->
+  (is_constrained d = true -> RP.interior (oh_dom d) c) -> Forall RP.unit_interval us ->
+  Forall (fun p => length p = oh_dim d) ps ->
+  Forall (RP.feasible (oh_dom d)) (fst (R.restrict_points (oh_dom d) c vp on us ps)) /\
+  length (fst (R.restrict_points (oh_dom d) c vp on us ps)) = length ps.
+Proof.
+  intros Hwf H2 Hi Hus Hps. destruct (restrict_points_okpt d c vp on us ps Hwf H2 Hi Hus) as [_ L]. split; [|exact L].
+  destruct (is_constrained d) eqn:Ec.
+  - apply RP.restrict_in_domain; [apply Hi; reflexivity|exact Hps|exact Hus|apply cons_two_rows; exact H2].
+  - unfold R.restrict_points. rewrite is_constrained_R, Ec. simpl. apply Forall_forall. intros q Hq.
+    apply in_map_iff in Hq as (p & <- & Hp). rewrite Forall_forall in Hps. apply unconstrained_feasible; [exact Ec|].
+    apply clip_long; [apply oh_box_ordered; exact Hwf|]. rewrite (Hps p Hp). unfold oh_dim. simpl. lia.
+Qed.
+(* the SciPy multistart result is an arbitrary list of rows of the right length: re-restricted, it is feasible *)
+Theorem spe_max_location_feasible d c scipy_out us : wf_domain d = true -> cons_two d ->
+  (is_constrained d = true -> RP.interior (oh_dom d) c) -> Forall RP.unit_interval us ->
+  Forall (fun p => length p = oh_dim d) scipy_out -> Forall (RP.feasible (oh_dom d)) (spe_max_location d c scipy_out us).
+Proof. intros Hwf H2 Hi Hus Hps. apply (restrict_points_feasible d c None false us scipy_out Hwf H2 Hi Hus Hps). Qed.
+
+Definition near_prim (d : domain) (m : nat) (pt : row) (o : nearorc) : Prop :=
+  Forall RP.unit_interval (n_us o) /\ Forall (fun z => length z = oh_dim d) (n_zs o) /\
+  (R.acceptable (oh_dom d) pt = false -> samp_ok d m (n_so o)).
+Lemma near_or_sample_ok d c m pt o out : wf_domain d = true -> cons_two d ->
+  (is_constrained d = true -> RP.interior (oh_dom d) c) -> near_prim d m pt o ->
+  near_or_sample d c m pt o = Some out -> Forall (RP.feasible (oh_dom d)) out.
+Proof.
+  intros Hwf H2 Hi (Hus & Hzs & Hso) H. unfold near_or_sample, R.near_point in H.
+  destruct (R.acceptable (oh_dom d) pt) eqn:Ea.
+  - match type of H with context [R.restrict_points ?D ?cc ?vp ?on ?uu ?pp] => destruct (R.restrict_points D cc vp on uu pp) as [o1 o2] eqn:Er end.
+    injection H as <-.
+    assert (Hpt : length pt = oh_dim d).
+    { unfold R.acceptable in Ea. apply andb_true_iff in Ea as [Eb _]. apply RP.in_box_b_iff in Eb. apply (RP.in_box_length _ _ Eb). }
+    match type of Er with R.restrict_points ?D ?cc ?vp ?on ?uu ?pp = _ =>
+      destruct (restrict_points_feasible d c vp on uu pp Hwf H2 Hi Hus) as [A _] end.
+    + apply Forall_forall. intros p Hp. apply in_map_iff in Hp as (z & <- & Hz). rewrite Forall_forall in Hzs. specialize (Hzs z Hz).
+      rewrite !map2_len. unfold R.widths. rewrite map_length. change (length (R.bounds (oh_dom d))) with (oh_dim d). lia.
+    + rewrite Er in A. exact A.
+  - apply (oh_sample_ok d c m (n_so o) out Hwf Hi (Hso eq_refl) H).
+Qed.
+Fixpoint props_prim (d : domain) (m : nat) (lower : list row) (os : list nearorc) : Prop :=
+  match lower, os with pt :: l, o :: os' => near_prim d m pt o /\ props_prim d m l os' | _, _ => True end.
+Lemma proposals_ok d c m : wf_domain d = true -> cons_two d -> (is_constrained d = true -> RP.interior (oh_dom d) c) ->
+  forall lower os out, props_prim d m lower os -> proposals d c m lower os = Some out -> Forall (RP.feasible (oh_dom d)) out.
+Proof.
+  intros Hwf H2 Hi. induction lower as [|pt lower IH]; intros os out Hp H; cbn [proposals] in H.
+  - injection H as <-. constructor.
+  - destruct os as [|o os]; [discriminate|]. destruct Hp as [Hn Hp].
+    destruct (near_or_sample d c m pt o) as [a|] eqn:Ea; [|discriminate].
+    destruct (proposals d c m lower os) as [b|] eqn:Eb; [|discriminate]. injection H as <-.
+    apply Forall_app. split; [eapply near_or_sample_ok; eassumption|eapply IH; eassumption].
+Qed.
+Definition SPE_BSZ : nat := Z.to_nat SPE_BATCH_SIZE.
+Definition spe_prim (d : domain) (c : row) (n : nat) (g : speglue) : Prop :=
+  Forall (fun it => props_prim d (SPE_BSZ / length (sg_lower g) + 1) (sg_lower g) (fst (fst it))) (sg_iters g) /\
+  (forall batches, spe_batches d c g = Some batches ->
+     let s := fst (spe_loop n SPE_BATCH_SIZE SPE_REJECTION_SAMPLES_LIMIT batches [] 0%Z) in
+     ((length s < n)%nat -> samp_ok d (n - length s) (sg_pad g)) /\
+     ((n < length s)%nat -> length (sg_ix g) = n /\ Forall (fun j => (j < length s)%nat) (sg_ix g))) /\
+  (n <= length (o_cats (sg_dec g)))%nat.
+Lemma combine3_rows (A : list row) (B C : list Q) x : In x (map (fun t : row * Q * Q => fst (fst t)) (combine (combine A B) C)) -> In x A.
+Proof.
+  intros H. apply in_map_iff in H as ([[a b] c0] & <- & Hin). simpl. apply in_combine_l in Hin. apply in_combine_l in Hin. exact Hin.
+Qed.
+Lemma spe_batch_rows d c bsz lower os eis us b x : spe_batch d c bsz lower os eis us = Some b ->
+  In x (map (fun t : row * Q * Q => fst (fst t)) b) ->
+  exists pts, proposals d c (bsz / length lower + 1) lower os = Some pts /\ In x pts.
+Proof.
+  unfold spe_batch. destruct (proposals d c (bsz / length lower + 1) lower os) as [pts|]; [|discriminate].
+  intros E Hx. injection E as <-. exists pts. split; [reflexivity|]. apply combine3_rows in Hx. apply (In_firstn bsz). exact Hx.
+Qed.
+
+Theorem spe_endpoint_admissible d opts ps path n c g r : wf_domain d = true -> (0 <= n)%Z -> cons_two d ->
+  (is_constrained d = true -> RP.interior (oh_dom d) c) ->
+  match path with
+  | SPERandom => random_prim d ps n (sg_pcols g) c (sg_rso g) (sg_rcols g) (sg_rdec g)
+  | SPEDraw => spe_prim d c (Z.to_nat n) g
+  end ->
+  (opts <> [] -> draws_ok opts (length (r_points r)) (sg_draws g)) ->
+  spe_endpoint d opts ps path n c g = Some r -> resp_ok d opts (Z.to_nat n) r.
+Proof.
+  intros Hwf Hn H2 Hi Hp Hd H. destruct path; cbn [spe_endpoint] in H.
+  - eapply random_endpoint_admissible; eassumption.
+  - unfold obind in H. destruct (spe_batches d c g) as [batches|] eqn:Eb; [|discriminate].
+    destruct Hp as (Hits & Hrest & Hcat). destruct (Hrest batches Eb) as [Hpad Hix]. clear Hrest.
+    set (s := fst (spe_loop (Z.to_nat n) SPE_BATCH_SIZE SPE_REJECTION_SAMPLES_LIMIT batches [] 0%Z)) in *.
+    match type of H with match ?e with _ => _ end = _ => destruct e as [pad|] eqn:Epad; [|discriminate] end.
+    match type of H with spe_tail _ _ _ _ _ ?oo = _ => set (o := oo) in * end.
+    apply (tail_spe_admissible d opts ps SPEDraw n o r Hwf Hn); [|intros r' Hr' Hne; rewrite H in Hr'; injection Hr' as <-; apply Hd, Hne|exact H].
+    unfold spe_contract. cbn [s_batches s_pad s_ix s_dec o]. fold s. split; [|split; [|split; [|split; [exact Hix|exact Hcat]]]].
+    + (* every proposed test point is feasible *)
+      apply Forall_forall. intros x Hx. apply feasible_relaxed_ok. unfold batch_rows in Hx. apply in_flat_map in Hx as (b & Hb & Hx).
+      unfold spe_batches in Eb. pose proof (all_some_In _ _ b Eb Hb) as Hsb. apply in_map_iff in Hsb as (it & Eit & Hit).
+      rewrite Forall_forall in Hits. specialize (Hits it Hit).
+      destruct (spe_batch_rows d c _ _ _ _ _ b x Eit Hx) as (pts & Ep & Hxp).
+      pose proof (proposals_ok d c _ Hwf H2 Hi _ _ _ Hits Ep) as F. rewrite Forall_forall in F. apply F, Hxp.
+    + destruct (Nat.ltb (length s) (Z.to_nat n)) eqn:El.
+      * apply Nat.ltb_lt in El. destruct (oh_sample_ok d c _ _ pad Hwf Hi (Hpad El) Epad) as [A _].
+        eapply Forall_impl; [|exact A]. intros p. apply feasible_relaxed_ok.
+      * injection Epad as <-. constructor.
+    + intros El. pose proof El as El'. apply Nat.ltb_lt in El'. rewrite El' in Epad.
+      destruct (oh_sample_ok d c _ _ pad Hwf Hi (Hpad El) Epad) as [_ B]. lia.
+Qed.
+
+(* ---- the search endpoints *)
+Theorem search_endpoint_admissible d c ph u afl best n m afl_pi Pde maxiter pretest sos hist dec f r :
+  wf_domain d = true -> cons_two d -> (is_constrained d = true -> RP.interior (oh_dom d) c) ->
+  mode_ok m -> Forall (fun o => unit_stream (so_us o)) sos -> (n <= length (o_cats dec))%nat ->
+  (forall afl' m' xs pts, gp_stage d [] c afl' best n m' = SOk xs -> convert_from_one_hot d (is_qei m') (afl' []) dec xs = Some pts ->
+     fill_prim d c (fill_k d pts hist) hist f) ->
+  search_endpoint d c ph u afl best n m afl_pi Pde maxiter pretest sos hist dec f = Some r -> resp_ok d [] n r.
+Proof.
+  intros Hwf H2 Hi Hm Hs Hl Hf H.
+  assert (G : exists afl' m', mode_ok m' /\ gp_endpoint d c afl' best n m' hist dec f = Some r).
+  { unfold search_endpoint in H. destruct ph; try (exists afl, m; split; assumption).
+    destruct (Qltb u RESOLVE_PHASE_PROB); [exists afl_pi, (GSearch Pde maxiter pretest sos)|exists afl, m]; split; assumption. }
+  destruct G as (afl' & m' & Hm' & G). eapply gp_endpoint_admissible; try eassumption. intros xs pts. apply Hf.
+Qed.
+Lemma spe_search_tail_as_spe d ps ph path n o :
+  spe_search_tail d [] ps ph path n o = spe_tail d [] ps (match ph with SInit => SPERandom | SExploit => path | SResolve => SPEDraw end) n o.
+Proof. destruct ph; reflexivity. Qed.
+Theorem spe_search_endpoint_admissible d ps ph path n c g r : wf_domain d = true -> (0 <= n)%Z -> cons_two d ->
+  (is_constrained d = true -> RP.interior (oh_dom d) c) ->
+  match ph, path with
+  | SInit, _ | SExploit, SPERandom => random_prim d ps n (sg_pcols g) c (sg_rso g) (sg_rcols g) (sg_rdec g)
+  | _, _ => spe_prim d c (Z.to_nat n) g
+  end ->
+  spe_search_endpoint d ps ph path n c g = Some r -> resp_ok d [] (Z.to_nat n) r.
+Proof.
+  intros Hwf Hn H2 Hi Hp H. unfold spe_search_endpoint in H.
+  eapply spe_endpoint_admissible; try eassumption; [|intros Hne; congruence].
+  destruct ph; [exact Hp|destruct path; exact Hp|destruct path; exact Hp].
+Qed.
+
+(* ------------------------------------------------------------------ non-vacuity *)
+Lemma cons_twob_spec d : cons_twob d = true <-> cons_two d.
+Proof.
+  unfold cons_twob, cons_two. rewrite forallb_forall. split; intros H k Hk; specialize (H k Hk).
+  - apply Nat.leb_le in H. exact H.
+  - apply Nat.leb_le. exact H.
+Qed.
+(* the triangle-like region  x + y <= 3  in [0,2]^2 with a two-valued categorical: relaxed dimension 4 *)
+Definition cx_dom : domain :=
+  {| comps := [Double 0 2; Double 0 2; Cat [1; 2]%Z];
+     cons := [{| weights := [-(1); -(1); 0]; rhs := -(3); cty := CDouble |}] |}.
+Definition cx_c : row := [1#2; 1#2; 1#2; 1#2].
+Definition cx_so : samp_orc := SRej [[[1; 1; 0; 1]; [1#2; 1#4; 1; 0]; [1#4; 1#2; 0; 1#2]]] [].
+Definition cx_dec : dorc := {| o_rnds := []; o_perms := []; o_cats := [[1%Z]; [2%Z]] |}.
+(* the acquisition function after `lies` lies: x + y - |lies| * (first one-hot coordinate) *)
+Definition cx_af (lies : list row) (p : row) : Q := Qred (nth 0 p 0 + nth 1 p 0 - inject_Z (Z.of_nat (length lies)) * nth 2 p 0).
+Definition cx_P : vpar := {| p_de := OP.mkde 3 4 true (1#2) 1; p_es_maxiter := 1; p_gd_n := 4; p_gd_maxiter := 2 |}.
+Definition cx_vorc : vorc :=
+  {| v_gen_es := fun k => repeat cx_c k; v_gen_gd := fun k => repeat cx_c k;
+     v_us_es := fun _ => [1#2; 1#2; 1#2]; v_us_gd := fun _ => [1#2; 1#2; 1#2; 1#2];
+     v_ds := [([(0, 1, 0); (1, 0, 0); (0, 1, 1)]%nat, [[0; 0; 0; 0]; [0; 0; 0; 0]; [0; 0; 0; 0]])];
+     v_zs := [[1#4; -(1#4); 0; 0]]; v_us_near := [1#2]; v_fallback := [];
+     v_choice := [0%nat; 2%nat];
+     v_ups := [[[1; 1; 0; 0]; [1#4; 1#4; 0; 0]; [0; 0; 1; 0]; [-(1); 0; 0; 0]]] |}.
+Definition cx_pretest : list row := [[1; 1#2; 0; 1]; [3#2; 1; 1; 0]].
+Definition cx_mode : gp_mode := GCl cx_P cx_pretest [cx_vorc; cx_vorc].
+Definition cx_fill : gp_fill :=
+  {| f_so := SRej [[[1; 1; 1; 0]; [1#8; 1#4; 0; 1]]] []; f_cols := [];
+     f_dec := {| o_rnds := []; o_perms := []; o_cats := [[2%Z]] |}; f_choice := [] |}.
+Definition cx_hist : list point := [[7#4; 5#4; 1]].
+
+Lemma cx_interior : RP.interior (oh_dom cx_dom) cx_c.
+Proof.
+  split; [reflexivity|]. intros h Hin. cbv in Hin.
+  repeat (destruct Hin as [<-|Hin]; [cbv; reflexivity|]). destruct Hin.
+Qed.
+Lemma unit_half_stream l : Forall (fun u => u = (1#2)) l -> Forall RP.unit_interval l.
+Proof. intros H. eapply Forall_impl; [|exact H]. intros u ->. unfold RP.unit_interval. lra. Qed.
+Lemma cx_mode_ok : mode_ok cx_mode.
+Proof.
+  cbn [mode_ok cx_mode]. assert (V : vorc_ok cx_vorc).
+  { split; intros k; apply unit_half_stream; repeat constructor. }
+  constructor; [exact V|constructor; [exact V|constructor]].
+Qed.
+Lemma unit_row_intro n (u : row) : length u = n -> forallb (fun x => Qle_bool 0 x && Qle_bool x 1) u = true -> unit_row n u.
+Proof.
+  intros Hl Hb. split; [exact Hl|]. rewrite forallb_forall in Hb. apply Forall_forall. intros x Hx.
+  specialize (Hb x Hx). apply andb_true_iff in Hb as [A B]. apply Qle_bool_iff in A. apply Qle_bool_iff in B. split; assumption.
+Qed.
+Definition unit_rowb (n : nat) (u : row) : bool := Nat.eqb (length u) n && forallb (fun x => Qle_bool 0 x && Qle_bool x 1) u.
+Lemma blocks_intro n blocks : forallb (forallb (unit_rowb n)) blocks = true -> Forall (Forall (unit_row n)) blocks.
+Proof.
+  intros H. rewrite forallb_forall in H. apply Forall_forall. intros b Hb. specialize (H b Hb). rewrite forallb_forall in H.
+  apply Forall_forall. intros u Hu. specialize (H u Hu). unfold unit_rowb in H. apply andb_true_iff in H as [A B].
+  apply Nat.eqb_eq in A. apply unit_row_intro; assumption.
+Qed.
+Lemma cx_samp_ok : samp_ok cx_dom 2 cx_so.
+Proof.
+  cbn [samp_ok cx_so]. split; [|split; [constructor|]].
+  - apply blocks_intro. reflexivity.
+  - intros pts E. vm_compute in E. discriminate.
+Qed.
+Lemma cx_fill_prim : fill_prim cx_dom cx_c 1 cx_hist cx_fill.
+Proof.
+  unfold fill_prim. change (negb (is_discrete cx_dom) || is_constrained cx_dom) with true. cbv iota.
+  unfold quasi_prim. change (is_constrained cx_dom) with true. cbv iota. split; [|simpl; lia].
+  cbn [samp_ok cx_fill f_so]. split; [|split; [constructor|]].
+  - apply blocks_intro. reflexivity.
+  - intros pts E. vm_compute in E. discriminate.
+Qed.
+(* the random endpoint on the constrained domain: rejection sampling keeps two of three candidates *)
+Example random_endpoint_example :
+  wf_domain cx_dom = true /\ RP.interior (oh_dom cx_dom) cx_c /\ random_prim cx_dom [] 2 [] cx_c cx_so [] cx_dec /\
+  random_endpoint cx_dom [] [] 2 [] cx_c cx_so [] cx_dec [] = Some {| r_points := [[2#2; 2#4; 1]; [2#4; 2#2; 2]]; r_costs := None |}.
+Proof.
+  split; [reflexivity|]. split; [exact cx_interior|]. split.
+  - unfold random_prim. change (DS.view_path [] (is_constrained cx_dom)) with DS.UseQuasi. cbv iota.
+    unfold quasi_prim. change (is_constrained cx_dom) with true. cbv iota. split; [exact cx_samp_ok|simpl; lia].
+  - vm_compute. reflexivity.
+Qed.
+(* the GP endpoint: two constant-liar rounds (DE generation, near-best + random ES starts, one Adam step); the first
+   suggestion lands on the face x + y = 3 through the constrained restriction, duplicates the history and is replaced
+   by a fresh point of the rejection sampler *)
+Example gp_endpoint_example :
+  wf_domain cx_dom = true /\ cons_two cx_dom /\ RP.interior (oh_dom cx_dom) cx_c /\ mode_ok cx_mode /\
+  gp_stage cx_dom [] cx_c cx_af (fun _ => [1; 1; 1; 0]) 2 cx_mode = SOk [[7#4; 5#4; 1; 0]; [3#2; 1; 1#4; 3#4]] /\
+  fill_prim cx_dom cx_c 1 cx_hist cx_fill /\
+  gp_endpoint cx_dom cx_c cx_af (fun _ => [1; 1; 1; 0]) 2 cx_mode cx_hist cx_dec cx_fill
+  = Some {| r_points := [[3#2; 1; 2]; [2#8; 2#4; 2]]; r_costs := None |}.
+Proof.
+  split; [reflexivity|]. split; [apply cons_twob_spec; reflexivity|]. split; [exact cx_interior|]. split; [exact cx_mode_ok|].
+  split; [vm_compute; reflexivity|]. split; [exact cx_fill_prim|]. vm_compute. reflexivity.
 Qed.
